@@ -75,6 +75,10 @@ def gen_case(rng, i, tier):
         for j in rng.sample(range(N), 3):
             wv[j] = 0.0
         build.append(["weights", [hx(v, sc) for v in wv]])
+    if not spec.get("builder_made") and i % 3 == 0:
+        # a hand-written model that computes from what set_params stored (the documented place for caching): the problem builder
+        # must hand it the initial guess through set_params before anything is evaluated
+        spec["lazy"] = True
     rng.shuffle(build)     # the order of the builder calls must not matter
     case = {"scalar": sc, "ctor": ctor, "model": spec, "faults": None, "build": build,
             "ops": [["observe"], ["fit", {}], ["observe"], ["jac_quiet"], ["ref", [hx(t, sc) for t in truth]]],
